@@ -45,7 +45,8 @@ fn exec_op_line(line: &str) -> (String, String) {
     let key = key_of(&c);
     let vop = match load_case_op(&c) {
         Ok(v) => v,
-        Err(_) => return (format!("trivial-loadfail:{}", c.op), format!("COp {{| k_key := \"{}\"%string; k_nout := {}%nat; k_in := []; k_out := None |}}", key, c.nout)),
+        // the registry rejects this attribute combination: there is no operator, hence no claim
+        Err(_) => return (format!("trivial-loadfail:{}", c.op), "CGraph {| g_plan := []; g_decl := []; g_labels := []; g_rt := [] |}".to_string()),
     };
     let env = c.envs.first().cloned().unwrap_or_default();
     let mut conc = vec![];
@@ -94,13 +95,22 @@ fn gop(name: &str) -> Option<GOp> {
         "Dequant" => GOp { op: "DequantizeLinear", attrs: vec![], extra: vec![('f', vec![], vec![2])], first: true },
         "DynQuant" => GOp { op: "DynamicQuantizeLinear", attrs: vec![], extra: vec![], first: true },
         "ReduceSum" => simple("ReduceSum"),
+        "TopK" => GOp { op: "TopK", attrs: vec![], extra: vec![('i', vec![1], vec![1])], first: true },
+        "Split2" => GOp { op: "Split", attrs: a("num_outputs", Attr::Int(2)), extra: vec![], first: true },
+        "Dropout" => simple("Dropout"),
+        "SkipLN" => GOp { op: "SkipLayerNormalization@com.microsoft", attrs: a("epsilon", Attr::Float(0.00001)), extra: vec![('f', vec![2, 3], vec![1]), ('f', vec![3], vec![1])], first: true },
         "ConstOfShape" => simple("ConstantOfShape"),
         _ => return None,
     })
 }
 const GOPS: &[&str] = &["CastF", "CastI", "CastL", "CastB", "CastU", "Shape", "Size", "Neg", "Abs", "Relu", "Identity", "Not", "IsNaN",
     "NonZero", "Sigmoid", "Flatten", "ArgMax", "EqualSelf", "AddF", "AddI", "GreaterF", "WhereCond", "Quant", "Dequant", "DynQuant",
-    "ReduceSum", "ConstOfShape"];
+    "ReduceSum", "ConstOfShape", "TopK", "Split2", "Dropout", "DynQuant", "TopK", "SkipLN"];
+
+/// number of outputs of a graph operator token
+fn gop_nout(name: &str) -> usize {
+    match name { "DynQuant" => 3, "TopK" | "Split2" | "Dropout" => 2, "SkipLN" => 4, _ => 1 }
+}
 
 fn vt_list_coq(l: &[(u64, ValueType)]) -> String { coq_list(l, |(k, t)| format!("({}%N, {})", k, dtype_name(*t))) }
 
@@ -113,7 +123,11 @@ fn exec_graph_line(line: &str) -> (String, String) {
     let mut decl: Vec<(u64, ValueType)> = vec![(0, dt_type(xdt))];
     let mut plan = vec![];
     let mut prev = "v0".to_string();
-    for (k, o) in ops.iter().enumerate() {
+    for (k, tok) in ops.iter().enumerate() {
+        // token = name[/mask[/next]]: mask = which outputs are connected ('1') or left unused ('0');
+        // next = index of the output the chain continues from
+        let parts: Vec<&str> = tok.split('/').collect();
+        let o = &parts[0];
         let g = match gop(o) { Some(g) => g, None => return ("trivial-badgraph".into(), "COp {| k_key := \"\"%string; k_nout := 0%nat; k_in := []; k_out := None |}".into()) };
         let mut ins = vec![Some(prev.clone())];
         if *o == "EqualSelf" { ins.push(Some(prev.clone())); }
@@ -124,21 +138,26 @@ fn exec_graph_line(line: &str) -> (String, String) {
             names.push(cname.clone());
             ins.push(Some(cname));
         }
-        let nout = if *o == "DynQuant" { 3 } else { 1 };
+        let nout = gop_nout(o);
+        let mask: Vec<bool> = match parts.get(1) { Some(m) if m.len() == nout => m.chars().map(|c| c == '1').collect(), _ => vec![true; nout] };
         let mut outs = vec![];
         for j in 0..nout {
+            if !mask[j] { outs.push(None); continue; }
             let oname = format!("v{}_{}", k + 1, j);
             nodes.push(GNode::Value { name: oname.clone(), dtype: None, shape: None });
             names.push(oname.clone());
             outs.push(Some(oname));
         }
+        let next: usize = parts.get(2).and_then(|x| x.parse().ok()).filter(|j| *j < nout && mask[*j])
+            .unwrap_or_else(|| mask.iter().position(|b| *b).unwrap_or(0));
         let present: Vec<bool> = ins.iter().map(|_| true).collect();
-        let bytes = onnx_model(g.op, "", &g.attrs, &present, nout, OPSET);
+        let (opname, domain) = match g.op.split_once('@') { Some((a, b)) => (a, b), None => (g.op, "") };
+        let bytes = onnx_model(opname, domain, &g.attrs, &present, nout, OPSET);
         let rules = match no_panic(|| rten::verif::shapeinfer::load_op(&bytes, 0)) { Some(Ok(v)) => v.output_types(nout), _ => None };
         let idx = |n: &Option<String>| -> String { match n { Some(n) => format!("Some {}%N", names.iter().position(|x| x == n).unwrap()), None => "None".into() } };
         plan.push(format!("{{| n_rules := {}; n_in := {}; n_out := {} |}}", rules_to_coq(&rules), coq_list(&ins, idx), coq_list(&outs, idx)));
         nodes.push(GNode::Op { name: format!("op{}", k), model_bytes: bytes, index: 0, inputs: ins, outputs: outs.clone() });
-        prev = outs[0].clone().unwrap();
+        prev = match outs[next].clone() { Some(p) => p, None => break };
     }
     let vg = match no_panic(|| build_graph(nodes, &["v0"], &[prev.as_str()])) { Some(Ok(g)) => g, _ => return ("trivial-badgraph".into(), "COp {| k_key := \"\"%string; k_nout := 0%nat; k_in := []; k_out := None |}".into()) };
     let labels: Vec<(u64, ValueType)> = match no_panic(|| vg.infer(false, 10)) {
@@ -219,6 +238,23 @@ fn type_specs(g: &mut G) -> Vec<String> {
         out.push(g.case("QuantizeLinear", vec![], 1, vec![f(vec![v(4)]), G::inpd('f', Sym::Shape(vec![]), vec![2]), G::inpd(dt, Sym::Shape(vec![]), vec![1])]));
         out.push(g.case("DequantizeLinear", vec![], 1, vec![G::inp(dt, Sym::Shape(vec![v(4)])), G::inpd('f', Sym::Shape(vec![]), vec![2]), G::inpd(dt, Sym::Shape(vec![]), vec![1])]));
     }
+    // attributes that determine the declared type are drawn independently of the input dtypes (the
+    // dtype product below then includes the combinations the current code rejects)
+    for od in [2i64, 3] {
+        out.push(g.case("QuantizeLinear", vec![("output_dtype", Attr::Int(od))], 1, vec![f(vec![v(4)]), G::inpd('f', Sym::Shape(vec![]), vec![2])]));
+        for zp in ['b', 'u'] {
+            out.push(g.case("QuantizeLinear", vec![("output_dtype", Attr::Int(od))], 1,
+                            vec![f(vec![v(4)]), G::inpd('f', Sym::Shape(vec![]), vec![2]), G::inpd(zp, Sym::Shape(vec![]), vec![1])]));
+        }
+    }
+    for dt in [1i64, 6, 2, 3] {
+        out.push(g.case("RandomUniform", vec![("shape", Attr::Ints(vec![2, 2])), ("dtype", Attr::Int(dt))], 1, vec![]));
+        out.push(g.case("RandomNormal", vec![("shape", Attr::Ints(vec![2, 2])), ("dtype", Attr::Int(dt))], 1, vec![]));
+        out.push(g.case("RandomUniformLike", vec![("dtype", Attr::Int(dt))], 1, vec![f(vec![v(2)])]));
+        out.push(g.case("RandomNormalLike", vec![("dtype", Attr::Int(dt))], 1, vec![f(vec![v(2)])]));
+        out.push(g.case("SequenceEmpty", vec![("dtype", Attr::Int(dt))], 1, vec![]));
+        out.push(g.case("Multinomial", vec![("sample_size", Attr::Int(2)), ("dtype", Attr::Int(dt))], 1, vec![G::inpd('f', Sym::Shape(vec![v(1), v(3)]), vec![1])]));
+    }
     out.push(g.case("QuantizeLinear", vec![("output_dtype", Attr::Int(3))], 1, vec![f(vec![v(4)]), G::inpd('f', Sym::Shape(vec![]), vec![2])]));
     out.push(g.case("QuantizeLinear", vec![], 1, vec![f(vec![v(4)]), G::inpd('f', Sym::Shape(vec![]), vec![2])]));
     out.push(g.case("DynamicQuantizeLinear", vec![], 3, vec![f(vec![v(2), v(2)])]));
@@ -273,9 +309,29 @@ fn gen_lines(seed: u64, n: usize) -> Vec<String> {
         }
     }
     // graph chains
+    // every multi-output operator with every non-empty subset of its outputs connected, the chain
+    // continuing from each connected output (unused LEADING outputs shift a buggy zip)
+    for (op, nout) in [("TopK", 2usize), ("Split2", 2), ("Dropout", 2), ("DynQuant", 3), ("SkipLN", 4)] {
+        for m in 1..(1u32 << nout) {
+            let mask: String = (0..nout).map(|j| if m & (1 << j) != 0 { '1' } else { '0' }).collect();
+            for j in 0..nout {
+                if m & (1 << j) == 0 { continue; }
+                let tail = g.r.pick(&["Identity", "CastI", "CastF", "Shape", "Neg"]);
+                out.push(format!("G#f#{}/{}/{};{}", op, mask, j, tail));
+            }
+        }
+    }
     for _ in 0..(n / 2 + 40) {
         let k = 1 + g.r.below(4) as usize;
-        let ops: Vec<&str> = (0..k).map(|_| g.r.pick(GOPS)).collect();
+        let ops: Vec<String> = (0..k).map(|_| {
+            let o = g.r.pick(GOPS);
+            let nout = gop_nout(o);
+            if nout == 1 { return o.to_string(); }
+            let m = 1 + g.r.below((1u64 << nout) - 1) as u32;
+            let mask: String = (0..nout).map(|j| if m & (1 << j) != 0 { '1' } else { '0' }).collect();
+            let used: Vec<usize> = (0..nout).filter(|j| m & (1 << j) != 0).collect();
+            format!("{}/{}/{}", o, mask, g.r.pick(&used))
+        }).collect();
         out.push(format!("G#{}#{}", g.r.pick(&['f', 'i']), ops.join(";")));
     }
     out
